@@ -46,7 +46,9 @@ impl RecvRun {
     ) -> RecvRun {
         let mut recv = MultiReceiver::new(monitor.clone(), Some(spec.config()), tsi_filter);
         let (l, ev) = Listener::new(ctx);
-        recv.add_listener(l);
+        if !label.ends_with("-nolistener") {
+            recv.add_listener(l);
+        }
         RecvRun {
             recv: Some(recv),
             monitor,
